@@ -93,6 +93,14 @@ def gen_actor(st, idx, small):
     else:
         recs = workload.gen_records(sub["workload"], 3000, nmax)
         w = {"role": "writer", "cls": "VbsWriter", "blocked": kn.random() < 0.5, "records": recs}
+        if kn.random() < 0.5:
+            # length prefixes that straddle a payload edge: a single write() of the blocker is then split in two
+            wl2 = sub["workload"]
+            recs = []
+            for _ in range(wl2.randint(2, 5)):
+                recs.append({"pos": [wl2.randint(0, 999), wl2.choice([1005, 1006, 1007]) if not recs or wl2.random() < 0.5
+                                     else wl2.choice([1001, 1002, 1003, 1013, 1014, 1015, wl2.randint(1, 900)])]})
+            w = {"role": "writer", "cls": "VbsWriter", "blocked": True, "records": recs}
         rcls = "VbsReader"
     if role == "writer":
         if w["cls"] == "IpmWriter" and kn.random() < 0.3:
